@@ -165,6 +165,24 @@ CLAIMED = {
          'ones, aborts by either side at several points, a non-library peer that writes its last PDU and A-ABORT in one '
          'segment and closes, leaving request_association normally and through six kinds of error.',
          'Partial: thread schedules are whatever the OS produces on the run; liveness verdicts count only when they reproduce.'),
+ 'C15': ('DESIGN.md §6 C15',
+         'Lean 4 composition theorem (C06+C01+C03+C07) and directory-model theorems + real storage function and real threads',
+         'store_end_to_end: a message fragmented with any usable limit, each fragment encoded as a P-DATA-TF PDU, the byte '
+         'stream cut into TCP segments in ANY way, is framed into exactly those PDUs, each decodes to its fragment, and the '
+         'decoder reassembles exactly the command set and data set sent. storage_never_clobbers: over the finite-map model of '
+         '_get_storage_file every history of stores only adds one new file per store (freshName_new by a pigeonhole argument). '
+         'The real _get_storage_file runs on a real directory over histories with repeated instances; real storage_scu -> '
+         'storage_scp run over a socket pair with real threads across syntaxes, asymmetric limits, memory/file sources, '
+         'temp/directory reception and handler outcomes, the received bytes re-read with pydicom.',
+         'Partial: the end-to-end theorem is about the composed models; real TCP and thread scheduling are sampled.'),
+ 'C20': ('DESIGN.md §6 C20',
+         'Lean 4 non-interference theorem for the product of loop models + threaded soak on loopback TCP',
+         'noninterference / failure_is_local: in a world of associations where each scheduler step advances one of them, the '
+         'state of association i after ANY interleaving is what it reaches alone with its own ticks; msg_ids_unique for the '
+         'thread-local counter. That the code is such a product (no mutable state shared between associations) is tested: '
+         'one real AE on loopback TCP serves 4, 16 and 32 concurrent clients with their own data, limits, transfer syntaxes '
+         'and operation mixes, some aborting; each client checks its own answers and the syntax the server used for it.',
+         'Partial: the quantifier over OS thread schedules is sampled (repeated rounds and seeds), not proved or enumerated.'),
 }
 
 PENDING_REASON = 'check not built yet in this round; planned in DESIGN.md §6 (Lean model + theorem + tie)'
